@@ -11,6 +11,7 @@
    No forest shape, no bound on sizes and no NoDup of the node list is assumed. *)
 From Coq Require Import ZArith List Bool Relations.
 From FT Require Import Model.SubsetExport Proofs.SubsetExportProofs.
+From FT Require Model.PyRt2 Gen.SubsetUtils_gen Proofs.SubsetTie.
 Import ListNotations.
 Open Scope Z_scope.
 
@@ -107,6 +108,19 @@ Proof. exact blocks_tile. Qed.
 Definition ex_g : graph :=
   ([1; 2; 3; 7; 8; 20; 21], [(1, 2); (2, 3); (2, 7); (7, 8); (20, 21)]).
 
+(* ---- filter_graph_with_ancestors is, for all arguments, the code translated on every run from the current
+        import_export/_utils.py (Gen/SubsetUtils_gen.v; translator harness/translate_pure.py +
+        translate_utils.py, fail closed).  With a selection inside the graph the Python raises nothing; without
+        that hypothesis it either raises NetworkXError or returns the model's answer. ---- *)
+Theorem C15_filter_is_generated : forall g sel, incl sel (g_nodes g) ->
+  FT.Gen.SubsetUtils_gen.gen_filter_graph_with_ancestors g sel = FT.Model.PyRt2.Ok (filter_graph_with_ancestors g sel).
+Proof. exact FT.Proofs.SubsetTie.gen_filter_graph_with_ancestors_eq. Qed.
+
+Theorem C15_filter_is_generated_partial : forall g sel,
+  FT.Gen.SubsetUtils_gen.gen_filter_graph_with_ancestors g sel = FT.Model.PyRt2.Raise FT.Model.PyRt2.NetworkXError \/
+  FT.Gen.SubsetUtils_gen.gen_filter_graph_with_ancestors g sel = FT.Model.PyRt2.Ok (filter_graph_with_ancestors g sel).
+Proof. exact FT.Proofs.SubsetTie.gen_filter_graph_with_ancestors_partial. Qed.
+
 Example C15_ex_well_formed : well_formed ex_g /\ incl [3; 21] (g_nodes ex_g).
 Proof.
   split.
@@ -169,3 +183,5 @@ Print Assumptions C15_seg.
 Print Assumptions C15_seg_any_chunks.
 Print Assumptions C15_chunks.
 Print Assumptions C15_chunks_nd.
+Print Assumptions C15_filter_is_generated.
+Print Assumptions C15_filter_is_generated_partial.
